@@ -26,22 +26,22 @@ func init() {
 
 // posReviewed: function -> what its handler is given.
 var posReviewed = map[string]string{
-	"notations/jschema/internal/checker.(checkSchema).checkNode":                 "call BasisLexEventOfSchemaForNode",
-	"notations/jschema/internal/validator.(*arrayValidator).feed":                "param jsonLexeme",
-	"notations/jschema/internal/validator.(*additionalPropertiesValidator).feed": "param jsonLexeme",
-	"notations/jschema/internal/validator.(*literalValidator).feed":              "param jsonLexeme",
-	"notations/jschema/internal/validator.(*objectValidator).feed":               "param jsonLexeme",
-	"notations/jschema/internal/validator.(*nullValidator).feed":                 "param jsonLexeme",
-	"notations/jschema/internal/loader.(*enumValueLoader).Load":                  "param lex",
-	"notations/jschema/internal/loader.(*allOfValueLoader).Load":                 "param lex",
-	"notations/jschema/internal/loader.(*ruleLoader).load":                       "param lex",
-	"notations/jschema/internal/loader.(*orRuleSetLoader).Load":                  "param lex",
-	"notations/jschema/internal/loader.(*nodeLoader).Load":                       "param lex",
-	"notations/jschema/internal/loader.(*orValueLoader).Load":                    "param lex",
-	"notations/jschema/internal/loader.(schemaCompiler).compileNode":             "call BasisLexEventOfSchemaForNode",
-	"notations/jschema/internal/loader.(*allOfConstraintCompiler).extend":        "call BasisLexEventOfSchemaForNode",
-	"notations/jschema/internal/loader.(*allOfConstraintCompiler).extendWith":    "call BasisLexEventOfSchemaForNode",
-	"internal/lexeme.CatchLexEventErrorWithIncorrectUserType":                    "param lex",
+	"notations/jschema/internal/checker.(checkSchema).checkNode":                "call BasisLexEventOfSchemaForNode",
+	"notations/jschema/internal/validator.(arrayValidator).feed":                "param jsonLexeme",
+	"notations/jschema/internal/validator.(additionalPropertiesValidator).feed": "param jsonLexeme",
+	"notations/jschema/internal/validator.(literalValidator).feed":              "param jsonLexeme",
+	"notations/jschema/internal/validator.(objectValidator).feed":               "param jsonLexeme",
+	"notations/jschema/internal/validator.(nullValidator).feed":                 "param jsonLexeme",
+	"notations/jschema/internal/loader.(enumValueLoader).Load":                  "param lex",
+	"notations/jschema/internal/loader.(allOfValueLoader).Load":                 "param lex",
+	"notations/jschema/internal/loader.(ruleLoader).load":                       "param lex",
+	"notations/jschema/internal/loader.(orRuleSetLoader).Load":                  "param lex",
+	"notations/jschema/internal/loader.(nodeLoader).Load":                       "param lex",
+	"notations/jschema/internal/loader.(orValueLoader).Load":                    "param lex",
+	"notations/jschema/internal/loader.(schemaCompiler).compileNode":            "call BasisLexEventOfSchemaForNode",
+	"notations/jschema/internal/loader.(allOfConstraintCompiler).extend":        "call BasisLexEventOfSchemaForNode",
+	"notations/jschema/internal/loader.(allOfConstraintCompiler).extendWith":    "call BasisLexEventOfSchemaForNode",
+	"internal/lexeme.CatchLexEventErrorWithIncorrectUserType":                   "param lex",
 }
 
 func runPOS1(c *load.Ctx, r *report.RuleResult) {
